@@ -13,6 +13,13 @@ CHECKS = {
              'Exhaustive over all 1-op and 2-op scripts of the complete opcode alphabet (thorough), model-steered deep scripts, byte-level mutations for the refusal clause. Held on the executions observed, not a proof.',
         note='trusted: ref/script.py (written from the BIPs, anchored on chain data), the native harness only records public fields of Instance/InterpreterEnv; signature opcodes are covered by C02',
         ref='5 C01'),
+    'C04': dict(
+        technique='runtime monitoring: relational (paired-run) monitor over step/rewind command histories, complete history trees (ASan+UBSan build)',
+        text='Exploration with complete enumeration of the {step,rewind} history tree to depth 10 (quick) / 12 (thorough) for short scripts and random hovering walks for long ones: after every command the complete observable state '
+             '(stack, alt stack, condition stack, code-hash start, code-separator position, tapscript signature budget, op count, position, sequence number, done flag) and the signature digests actually computed afterwards '
+             'must equal those of a fresh session advanced by the net number of steps; refused rewinds must change nothing.',
+        note='trusted: the fresh session of the same implementation is the reference (its correctness is C01/C02); harness reads public fields of InterpreterEnv',
+        ref='5 C04'),
     'C10': dict(
         technique='runtime monitoring: lock-step reference-model monitor over Instance::step() traces of boundary scripts (ASan+UBSan build)',
         text='Exploration over a deterministic boundary matrix: for each consensus limit (520-byte push, 1000 stack+altstack items, 201 counted ops incl. multisig key counts, 20 multisig keys, 10,000-byte scripts, 4/5-byte numeric operands) '
